@@ -1,6 +1,7 @@
 package main
 
 import (
+	"strconv"
 	"fmt"
 	"go/token"
 	"go/types"
@@ -556,6 +557,10 @@ func (e *Enc) checkPost(fr *frame, st *bstate, rs []Val, ret *ssa.Return) {
 	}
 	for i, cl := range e.C.Ensures {
 		if cl.Assumed {
+			continue
+		}
+		// a clause about the state at the k-th Lock only concerns executions that passed that Lock
+		if !e.dry && !e.locksDominate(cl.Expr, ret) {
 			continue
 		}
 		env := e.newSpecEnv(fr, st)
@@ -1500,8 +1505,17 @@ func (e *Enc) callLeavesComp(fr *frame, call *ssa.CallCommon, comp string) bool 
 		c = e.P.reg.Contracts[ifaceMethodKey(call.Value.Type(), call.Method)]
 	} else if callee := call.StaticCallee(); callee != nil {
 		c = e.P.contractFor(callee)
+	} else if fa := mapFieldOfFuncValue(call.Value); fa != nil {
+		if pt, ok := fa.X.Type().Underlying().(*types.Pointer); ok {
+			if named, ok := types.Unalias(pt.Elem()).(*types.Named); ok && named.Obj().Pkg() != nil {
+				stt := named.Underlying().(*types.Struct)
+				c = e.P.reg.Contracts[named.Obj().Pkg().Path()+"#"+named.Obj().Name()+"."+stt.Field(fa.Field).Name()]
+			}
+		}
+	} else if named, ok := types.Unalias(call.Value.Type()).(*types.Named); ok && named.Obj().Pkg() != nil {
+		c = e.P.reg.Contracts[named.Obj().Pkg().Path()+"#"+named.Obj().Name()]
 	}
-	if c == nil || !c.HasMod {
+	if c == nil || !(c.HasMod || c.Pure) {
 		return false
 	}
 	for _, m := range c.Modifies {
@@ -1751,4 +1765,34 @@ func (e *Enc) elemValueInv(el types.Type, v string) string {
 		cs = append(cs, f)
 	}
 	return sAnd(cs...)
+}
+
+
+// locksDominate: every atlock(e[, k]) in x refers to a Lock call that every path to ret passes.
+func (e *Enc) locksDominate(x *CExpr, ret *ssa.Return) bool {
+	if x == nil {
+		return true
+	}
+	if x.Op == "call" && x.Name == "atlock" {
+		k := 1
+		if len(x.Args) == 2 && x.Args[1] != nil && x.Args[1].Op == "lit-int" {
+			k, _ = strconv.Atoi(x.Args[1].Int)
+		}
+		if k < 1 || k > len(e.lockInstrs) {
+			return false
+		}
+		li := e.lockInstrs[k-1]
+		if li == nil || li.Block() == nil {
+			return false
+		}
+		if !(li.Block() == ret.Block() || li.Block().Dominates(ret.Block())) {
+			return false
+		}
+	}
+	for _, a := range x.Args {
+		if !e.locksDominate(a, ret) {
+			return false
+		}
+	}
+	return true
 }
